@@ -1,0 +1,39 @@
+//go:build verif
+
+// Contracts for govc (see /verif/DESIGN.md). Comment-only: no executable code with or without the tag.
+
+package dtls
+
+//@ import context "context"
+//@ import net "net"
+//@ import transports "github.com/refraction-networking/conjure/pkg/transports"
+//@ import pb "github.com/refraction-networking/conjure/proto"
+//@ import dtls "github.com/refraction-networking/conjure/pkg/dtls"
+
+// ---------------- C16 / C02: the station side of a DTLS session ----------------
+// C16 "both ends derive identical certificates from a shared secret ... each accepted connection is delivered to the
+// caller waiting for that secret": both attempts of Connect (dialling the client, accepting from it) are keyed with the
+// shared secret of the registration Connect was called for (C02: a DTLS tunnel opens only for proof of that
+// registration's secret), and only a registration of the DTLS transport is served.
+// C16 "an accept that is cancelled leaves nothing registered" (caller side): every blocking channel operation of
+// Connect and of its two attempts has an arm on the (derived) context, so a cancelled Connect leaves no goroutine
+// blocked on a hand-over nobody will take.
+//@ func (t *Transport) Connect(ctx context.Context, reg transports.Registration) (net.Conn, error)
+//@   requires t != nil && reg != nil && ctx != nil
+//@   ensures @C02 @C16: regTransport(reg) != 3 ==> result0 == nil && result1 == transports.ErrNotTransport
+//@   cancellable @C16: ctx
+//@   checks structure
+//@ loop 1:
+//@   invariant true
+//@ loop 2:
+//@   invariant true
+//@ func (t *Transport) Connect$1()
+//@   atcall Registration).SharedSecret after: snap psk := res
+//@   atcall ClientWithContext before: assert @C16 @C02: defined(psk) && arg2 != nil && arg2.PSK == psk && arg0 == ctxCancel
+//@   cancellable @C16: ctxCancel
+//@   checks structure
+//@ func (t *Transport) Connect$2()
+//@   atcall Registration).SharedSecret after: snap psk := res
+//@   atcall AcceptWithContext before: assert @C16 @C02: defined(psk) && arg2 != nil && arg2.PSK == psk && arg1 == ctxCancel
+//@   cancellable @C16: ctxCancel
+//@   checks structure
